@@ -1161,7 +1161,8 @@ class SOEnumCol(SOCol):
                 [sqlbuilder.sqlrepr(v, 'mysql') for v in self.enumValues
                     if v is not None])
         else:
-            return "ENUM(%s) NOT NULL" % ', '.join(
+            # NOT NULL is added by _extraSQL when notNone is declared
+            return "ENUM(%s)" % ', '.join(
                 [sqlbuilder.sqlrepr(v, 'mysql') for v in self.enumValues])
 
     def _postgresType(self):
